@@ -151,4 +151,20 @@ CHECKS = {
                 "uses a user present in both scopes, or contains an out-of-place/odd packet.",
         "assumptions": COMMON_ASSUME + ["bcrypt.CompareHashAndPassword decides what 'verifies' means", "keychain lookups are by user name (as the bcrypt authenticator does)"],
     },
+    "C11": {
+        "quick": 2000, "thorough": 100000,
+        "rule": "rapid draws a policy for 1..2 users (0..6 user rules + 0..2 groups x 0..4 rules; rule name from a 4-word pool, '*' or a "
+                "padded name; action permit/deny/other; 0..3 patterns from a grammar: words, .*, alternations, partial anchors, "
+                "groups, escaped metacharacters, classes, surrounding whitespace, empty, invalid; 0..3 services per user/group with "
+                "0..3 set-values (optional or not), match conditions on protocol/scope/multi-value) rendered to YAML or JSON, and 1..6 "
+                "requests: command requests (service=shell present/absent/other/starred, cmd=/cmd*/missing/padded, 0..4 cmd-args "
+                "incl. ';', '|', spaces, empty, trailing <cr>/<CR>, reordered, second cmd, trailing extra argument, padded with "
+                "whitespace/newline) and session requests (0..4 arguments selecting services by attribute or value, '=' and '*'), "
+                "for known and unknown users. Oracle: independent evaluator (rules in order user then groups, rule applies if '*' or "
+                "name==cmd and (no patterns or \\A(?:p)\\z matches the joined args with the final <cr> dropped), first applying rule "
+                "decides, default FAIL; invalid pattern reached => FAIL also accepted; sessions: exact de-duplicated value list in "
+                "configuration order, ADD/REPL by optionality, FAIL when empty; ambiguous requests accept any single reading or "
+                "FAIL). Non-trivial: >=2 actions for one command, a pattern with | ^ $ or escape, or a service with a match condition.",
+        "assumptions": COMMON_ASSUME + ["Go regexp decides whether a pattern is valid and what it matches", "service-level is_optional is not generated (the statement speaks of value optionality)"],
+    },
 }
